@@ -69,7 +69,7 @@ type ContractSet struct {
 	tinvs map[string][]*Clause // pkgpath + "." + type name -> invariants over `self`
 }
 
-var clauseRe = regexp.MustCompile(`^(requires|ensures|modifies|inline|trusted|pure|noframe|loop|let|func|spec|replay|type|lemma)\b\s*(.*)$`)
+var clauseRe = regexp.MustCompile(`^(requires|ensures|defines|modifies|inline|trusted|pure|noframe|loop|let|func|spec|replay|type|lemma)\b\s*(.*)$`)
 
 func loadContracts(repo string) (*ContractSet, error) {
 	cs := &ContractSet{byKey: map[string]*Contract{}, specs: map[string]*SpecFunc{}, tinvs: map[string][]*Clause{}}
@@ -204,7 +204,7 @@ func (cs *ContractSet) parseFile(repo, path string) error {
 			sf.Pkg = pkgPath
 			pendingSpec = sf
 			last = &sf.Src
-		case "requires", "ensures":
+		case "requires", "ensures", "defines":
 			if cur == nil {
 				return fmt.Errorf("%s:%d: clause outside func", path, ln+1)
 			}
@@ -342,7 +342,7 @@ func (c *Contract) hasSpec() bool {
 		return true
 	}
 	for _, cl := range c.Clauses {
-		if cl.Loop == 0 && (cl.Kind == "requires" || cl.Kind == "ensures") {
+		if cl.Loop == 0 && (cl.Kind == "requires" || cl.Kind == "ensures" || cl.Kind == "defines") {
 			return true
 		}
 	}
